@@ -113,6 +113,14 @@ class QModel:
             if len(bs) != 1:
                 rep.anchor_lost('Q0', 'QueuingMetricSink::%s' % name)
                 self.ok_counters = False
+        if len(self.run) > 1 and len(self.spawn) == 1:
+            # several methods touch the receiver: the worker loop is the one the spawned thread calls; the others are
+            # reported by the one-consumer rule (C08-R2)
+            sc0 = cad.closures_of(self.spawn[0].path)
+            called = set(t.get('resolved') for c_ in sc0 for _, t in c_.calls())
+            pick = [b for b in self.run if b.path in called]
+            if len(pick) == 1:
+                self.run = pick
         if len(self.run) != 1 or len(self.stop) != 1 or len(self.submit) != 1 or len(self.spawn) != 1 or len(self.build) != 1:
             rep.anchor_lost('Q0', 'worker run/stop/submit, spawn fn, build by role: %d/%d/%d/%d/%d' % (
                 len(self.run), len(self.stop), len(self.submit), len(self.spawn), len(self.build)))
